@@ -547,8 +547,12 @@ pub proof fn lemma_wsum(vs: Seq<Voter>, ws: Seq<u64>, n: int)
     r is Ok ==> forall|j: int| 0 <= j < msg.voters@.len() ==> voter_of(final(deps.storage).view(), (#[trigger] msg.voters@[j]).addr@) == Some(msg.voters@[j].weight)
 @ensures C05.instantiate_no_proposals
     r is Ok ==> count(final(deps.storage).view()) == 0
-@replace E11 "msg.voters.iter().map(|v| v.weight).sum()" 1
-    it_map_sum_u64(&msg.voters, |v: &Voter| -> (res: u64) ensures res == v.weight { v.weight })
+@adapter map_sum 1
+@closure_types 1
+    v: &Voter
+@closure 1 C06.instantiate_weight_closure
+    (res: u64)
+    ensures res == v.weight
 @loop 1 C06.instantiate_loop
     invariant
         it.index@ <= msg.voters@.len(),
